@@ -6,6 +6,7 @@
 #include <unistd.h>
 #include <csignal>
 #include <cstring>
+#include <dune/common/typetraits.hh>
 #include <dune/common/bigunsignedint.hh>
 #include <dune/common/exceptions.hh>
 #include <dune/common/hash.hh>
@@ -108,6 +109,49 @@ Result ctorAs(long long sv, unsigned long long uv, bool isSigned) {
   return res;
 }
 
+
+// ---- built-in operands of every integral type ---------------------------------------------------
+// calls f(y) with y of the built-in type named ty (i8 i16 i32 i64 u8 u16 u32 u64 bool) holding the decimal value sv;
+// i64/u64 alternate between long and long long.  false: not a value of that type.
+template <class F>
+bool withBuiltin(const std::string& ty, const std::string& sv, F&& f) {
+  if (sv.empty()) return false;
+  bool neg = sv[0] == '-';
+  try {
+    if (ty[0] == 'i') {
+      long long y = std::stoll(sv);
+      auto in = [&](long long lo, long long hi) { return y >= lo && y <= hi; };
+      if (ty == "i8" && in(-128, 127)) { f((signed char)y); return true; }
+      if (ty == "i16" && in(-32768, 32767)) { f((short)y); return true; }
+      if (ty == "i32" && in(-2147483648ll, 2147483647ll)) { f((int)y); return true; }
+      if (ty == "i64") { if (y & 2) f((long)y); else f((long long)y); return true; }
+      return false;
+    }
+    if (neg) return false;
+    unsigned long long u = std::stoull(sv);
+    if (ty == "u8" && u <= 0xff) { f((unsigned char)u); return true; }
+    if (ty == "u16" && u <= 0xffff) { f((unsigned short)u); return true; }
+    if (ty == "u32" && u <= 0xffffffffull) { f((unsigned)u); return true; }
+    if (ty == "u64") { if (u & 2) f((unsigned long)u); else f((unsigned long long)u); return true; }
+    if (ty == "bool" && u <= 1) { f((bool)u); return true; }
+  } catch (std::invalid_argument&) {
+  } catch (std::out_of_range&) {
+  }
+  return false;
+}
+static bool isCmpName(const std::string& c) { return c == "lt" || c == "le" || c == "gt" || c == "ge" || c == "eq" || c == "ne"; }
+static bool cmpMpz(const std::string& c, const mpz_class& u, const mpz_class& v) {
+  return c == "lt" ? u < v : c == "le" ? u <= v : c == "gt" ? u > v : c == "ge" ? u >= v : c == "eq" ? u == v : u != v;
+}
+template <class A, class Bt>
+bool cmpReal(const std::string& c, const A& u, const Bt& v) {
+  return c == "lt" ? u < v : c == "le" ? u <= v : c == "gt" ? u > v : c == "ge" ? u >= v : c == "eq" ? u == v : u != v;
+}
+static bool isBinName(const std::string& b, bool arithOnly) {
+  if (b == "add" || b == "sub" || b == "mul" || b == "div" || b == "mod") return true;
+  return !arithOnly && (b == "and" || b == "or" || b == "xor");
+}
+
 // ---- operation histories on two variables -----------------------------------------------------
 static const long QUOT_CAP = 2000;  // same rule as Driver/C10.lean: slower divisions are not executed
 
@@ -142,10 +186,83 @@ Result execProg(const std::string& line) {
     stat("stmt_" + op);
     mpz_class E;          // expected new value of D
     bool expectErr = false, threw = false;
+    bool expectNeg = false, threwNeg = false;   // negative built-in operand: Dune::Exception
+    std::string obsText;                        // observation of a statement that does not assign (comparison, touint)
     const mpz_class SD0 = SD;
     const Big* ret = nullptr;
     try {
-      if (op == "incr" && w.size() == 2) { E = (SD + 1) % W; ret = &(++D); }
+      if (op == "touint" && w.size() == 2) {
+        E = SD;
+        unsigned long u = (unsigned long)D.touint();
+        obsText = std::to_string(u);
+        if (mpz_class(u) != SD % (mpz_class(1) << 32) && fail.empty()) fail = "FAIL '" + st + "' gave " + obsText;
+      }
+      else if (isCmpName(op) && w.size() == 3 && (w[2] == "a" || w[2] == "b")) {
+        E = SD;
+        const Big& Y = w[2] == "a" ? a : b;
+        const mpz_class SY = w[2] == "a" ? SA : SB;
+        if (&Y == &D) stat("stmt_cmp_self");
+        bool got = cmpReal(op, const_cast<const Big&>(D), Y);
+        obsText = got ? "true" : "false";
+        if (got != cmpMpz(op, SD, SY) && fail.empty()) fail = "FAIL comparison '" + st + "' gave " + obsText;
+      }
+      else if (w.size() == 4 && op.size() == 3 && op[2] == 'b' && isCmpName(op.substr(0, 2))) {
+        E = SD;
+        const std::string c = op.substr(0, 2);
+        mpz_class Y(w[3]);
+        expectNeg = Y < 0;
+        stat("stmt_cmp_builtin");
+        bool okTy = withBuiltin(w[2], w[3], [&](auto y) {
+          stat(std::string("builtin_") + w[2]);
+          bool got = cmpReal(c, const_cast<const Big&>(D), y);
+          obsText = got ? "true" : "false";
+          if (!expectNeg && got != cmpMpz(c, SD, mpz_class(Y % W)) && fail.empty()) fail = "FAIL comparison '" + st + "' gave " + obsText;
+        });
+        if (!okTy) { res.impl = "bad-op"; res.oracle = "FAIL malformed statement '" + st + "'"; return res; }
+      }
+      else if (w.size() == 4 && op.size() >= 3 && (op[0] == 'm' || op[0] == 'r' || op[0] == 'c') &&
+               isBinName(op.substr(1), op[0] != 'c')) {
+        const char form = op[0];
+        const std::string base = op.substr(1);
+        mpz_class Y(w[3]);
+        expectNeg = Y < 0;
+        mpz_class SS = expectNeg ? mpz_class(0) : mpz_class(Y % W);
+        const mpz_class num = form == 'r' ? SS : SD, den = form == 'r' ? SD : SS;
+        if (!expectNeg && (base == "div" || base == "mod") && den != 0 && num / den > QUOT_CAP) {
+          obs.push_back("SKIP");
+          stat("prog_skipped");
+          res.impl = join(obs.begin(), obs.end(), ";");
+          if (!fail.empty()) res.oracle = fail;
+          return res;
+        }
+        if (expectNeg) { stat("stmt_negative_builtin"); E = SD; }
+        else if (base == "add") E = (num + den) % W;
+        else if (base == "sub") E = ((num - den) % W + W) % W;
+        else if (base == "mul") E = (num * den) % W;
+        else if (base == "div") { if (den == 0) expectErr = true; else E = num / den; }
+        else if (base == "mod") { if (den == 0) expectErr = true; else E = num % den; }
+        else if (base == "and") E = num & den;
+        else if (base == "or") E = num | den;
+        else E = num ^ den;
+        stat(form == 'm' ? "stmt_mixed_bigleft" : form == 'r' ? "stmt_mixed_bigright" : "stmt_compound_builtin");
+        bool okTy = withBuiltin(w[2], w[3], [&](auto y) {
+          stat(std::string("builtin_") + w[2]);
+          if (form == 'm') {
+            if (base == "add") D = D + y; else if (base == "sub") D = D - y; else if (base == "mul") D = D * y;
+            else if (base == "div") D = D / y; else D = D % y;
+          } else if (form == 'r') {
+            if (base == "add") D = y + D; else if (base == "sub") D = y - D; else if (base == "mul") D = y * D;
+            else if (base == "div") D = y / D; else D = y % D;
+          } else {
+            if (base == "add") ret = &(D += y); else if (base == "sub") ret = &(D -= y);
+            else if (base == "mul") ret = &(D *= y); else if (base == "div") ret = &(D /= y);
+            else if (base == "mod") ret = &(D %= y); else if (base == "and") ret = &(D &= y);
+            else if (base == "or") ret = &(D |= y); else ret = &(D ^= y);
+          }
+        });
+        if (!okTy) { res.impl = "bad-op"; res.oracle = "FAIL malformed statement '" + st + "'"; return res; }
+      }
+      else if (op == "incr" && w.size() == 2) { E = (SD + 1) % W; ret = &(++D); }
       else if (op == "not" && w.size() == 2) { E = W - 1 - SD; D = ~D; }
       else if ((op == "shl" || op == "shr") && w.size() == 3) {
         int sh = std::stoi(w[2]);
@@ -196,17 +313,25 @@ Result execProg(const std::string& line) {
       else { res.impl = "bad-op"; res.oracle = "FAIL malformed statement '" + st + "'"; return res; }
     } catch (Dune::MathError&) {
       threw = true;
+    } catch (Dune::Exception&) {
+      threwNeg = true;
     }
     if (expectErr) stat("stmt_zero_divisor");
-    if (threw) {
+    if (threwNeg) {
+      obs.push_back("ERR:Negative");
+      if (!expectNeg && fail.empty()) fail = "FAIL non-negative built-in operand rejected in '" + st + "'";
+      if (toMpz<k>(D) != SD0 && fail.empty()) fail = "FAIL destination changed although '" + st + "' threw";
+    } else if (threw) {
       obs.push_back("ERR:Math");
       if (!expectErr && fail.empty()) fail = "FAIL MathError for non-zero divisor in '" + st + "'";
+      if (expectNeg && fail.empty()) fail = "FAIL negative built-in operand not rejected in '" + st + "'";
       if (toMpz<k>(D) != SD0 && fail.empty()) fail = "FAIL destination changed although '" + st + "' threw";
     } else {
       mpz_class got = toMpz<k>(D);
-      obs.push_back(hexFixed(got, n));
+      obs.push_back(obsText.empty() ? hexFixed(got, n) : obsText);
       if (fail.empty()) {
-        if (expectErr) fail = "FAIL zero divisor not reported in '" + st + "'";
+        if (expectNeg) fail = "FAIL negative built-in operand not rejected in '" + st + "'";
+        else if (expectErr) fail = "FAIL zero divisor not reported in '" + st + "'";
         else if (got != E) fail = "FAIL after '" + st + "': value " + hexOf(got) + " expected " + hexOf(E);
         else if (ret && toMpz<k>(*ret) != E) fail = "FAIL '" + st + "' returned " + hexOf(toMpz<k>(*ret)) + ", not the new value";
       }
@@ -412,6 +537,31 @@ Result execK(const std::vector<std::string>& w) {
     vr.impl = canonPrinted(os.str());
     return vr;
   }
+  if (op == "printfl") {
+    // print()/operator<< into a stream whose format flags are set: the characters must still denote the value, and the
+    // stream's flags must be what they were.  (width is not set: padding the first character is the stream's business.)
+    unsigned mask = (unsigned)std::stoul(w.at(2));
+    mpz_class A = bigArg(3);
+    if (mask >= 64) { res.impl = "bad-op"; res.oracle = "ok trivial"; return res; }
+    const Big a = fromMpz<k>(A);
+    std::ostringstream os;
+    if (mask & 1) os << std::showbase;
+    if (mask & 2) os << std::uppercase;
+    if (mask & 4) os << std::showpos;
+    if ((mask >> 3) == 1) os << std::hex; else if ((mask >> 3) == 2) os << std::oct; else if ((mask >> 3) == 3) os.unsetf(std::ios::basefield);
+    os.fill('*');
+    const auto f0 = os.flags();
+    if (mask & 1) a.print(os); else os << a;
+    std::string p = os.str();
+    if (p.size() > 2 && p[0] == '0' && (p[1] == 'x' || p[1] == 'X')) p = p.substr(2);   // one base prefix is a legitimate form
+    res.impl = canonPrinted(p);
+    mpz_class printed;
+    if (p.empty() || printed.set_str(p, 16) != 0 || printed != A) res.oracle = "FAIL printed '" + os.str() + "' (stream flags " + std::to_string(mask) + ") does not denote " + hexOf(A);
+    else if (os.flags() != f0) res.oracle = "FAIL printing changed the stream's format flags";
+    else if (os.fill() != '*' || os.width() != 0) res.oracle = "FAIL printing changed the stream's fill/width";
+    else if (toMpz<k>(a) != A) res.oracle = "FAIL operand modified";
+    return res;
+  }
   if (op == "default") {
     Big a;
     return valueResult<k>(a, 0);
@@ -421,11 +571,23 @@ Result execK(const std::vector<std::string>& w) {
     std::ostringstream os;
     auto tf = [](bool b) { return b ? "true" : "false"; };
     os << "digits=" << L::digits << " radix=" << L::radix << " signed=" << tf(L::is_signed) << " integer=" << tf(L::is_integer)
-       << " exact=" << tf(L::is_exact) << " bounded=" << tf(L::is_bounded) << " modulo=" << tf(L::is_modulo);
+       << " exact=" << tf(L::is_exact) << " bounded=" << tf(L::is_bounded) << " modulo=" << tf(L::is_modulo)
+       << " specialized=" << tf(L::is_specialized) << " exponents=" << L::min_exponent << "," << L::min_exponent10 << ","
+       << L::max_exponent << "," << L::max_exponent10 << " infinity=" << tf(L::has_infinity) << " qnan=" << tf(L::has_quiet_NaN)
+       << " snan=" << tf(L::has_signaling_NaN) << " denormloss=" << tf(L::has_denorm_loss) << " iec559=" << tf(L::is_iec559)
+       << " traps=" << tf(L::traps) << " tinyness=" << tf(L::tinyness_before);
     res.impl = os.str();
     if (!L::is_specialized || L::digits != 16 * n || L::radix != 2 || L::is_signed || !L::is_integer || !L::is_exact ||
         !L::is_bounded || !L::is_modulo)
       res.oracle = "FAIL numeric_limits data inconsistent with an unsigned modulo-2^" + std::to_string(16 * n) + " integer";
+    else if (L::min_exponent || L::min_exponent10 || L::max_exponent || L::max_exponent10 || L::has_infinity ||
+             L::has_quiet_NaN || L::has_signaling_NaN || L::has_denorm_loss || L::is_iec559 || L::traps || L::tinyness_before)
+      res.oracle = "FAIL numeric_limits describes floating-point features for an integer type";
+    else if (toMpz<k>(L::epsilon()) != 0 || toMpz<k>(L::round_error()) != 0 || toMpz<k>(L::infinity()) != 0 ||
+             toMpz<k>(L::quiet_NaN()) != 0 || toMpz<k>(L::signaling_NaN()) != 0 || toMpz<k>(L::denorm_min()) != 0)
+      res.oracle = "FAIL numeric_limits epsilon/round_error/infinity/NaN/denorm_min not 0 for an integer type";
+    else if (!Dune::IsNumber<Big>::value)
+      res.oracle = "FAIL IsNumber<bigunsignedint> is false";
     else {
       // max() has exactly `digits` one-bits, lowest() = min() = 0
       Big m = L::max();
@@ -480,7 +642,7 @@ Result execK(const std::vector<std::string>& w) {
   return res;
 }
 
-static const int KS[] = {8, 16, 24, 32, 48, 64, 65, 100, 128, 256};
+static const int KS[] = {8, 16, 24, 32, 48, 64, 65, 100, 128, 256, 1, 17, 129};
 static const int NKS = sizeof(KS) / sizeof(KS[0]);
 
 template <int k>
@@ -509,6 +671,9 @@ Result exec(const std::string& line) {
     case 100: return execAny<100>(w, line);
     case 128: return execAny<128>(w, line);
     case 256: return execAny<256>(w, line);
+    case 1: return execAny<1>(w, line);
+    case 17: return execAny<17>(w, line);
+    case 129: return execAny<129>(w, line);
   }
   return Result{"bad-op", "FAIL width not instantiated"};
 }
@@ -536,7 +701,8 @@ std::string gen(Rng& r, long, const Args& a) {
       "eq", "ne", "hasheq", "assign", "touint", "todouble", "print", "max", "digits",
       "add_u", "sub_u", "mul_u", "div_u", "mod_u", "u_add", "u_sub", "u_mul", "u_div", "u_mod",
       "add", "sub", "mul", "shl", "shr", "lt", "le", "div", "mod", "todouble",
-      "prog", "prog", "prog", "prog", "prog", "prog", "prog", "prog", "ctor", "ctor", "ctor", "default", "limits"};
+      "prog", "prog", "prog", "prog", "prog", "prog", "prog", "prog", "prog", "prog", "ctor", "ctor", "ctor", "default", "limits",
+      "printfl"};
   int k = KS[r.below(NKS)];
   int n = k / 16 + (k % 16 != 0);
   std::string op = r.pick(ops);
@@ -561,12 +727,84 @@ std::string gen(Rng& r, long, const Args& a) {
     int len = (int)r.range(1, a.tier == "thorough" ? 24 : 10);
     static const std::vector<std::string> bins = {"add", "sub", "mul", "div", "mod", "and", "or", "xor",
                                                   "add", "sub", "mul", "div", "mod"};
+    // a built-in operand of a random integral type: its type name, its decimal text and its exact value
+    auto typed = [&](std::string& ty, std::string& text, mpz_class& Y, bool allowNeg) {
+      static const std::vector<std::string> tys = {"i8", "i16", "i32", "i64", "i32", "i64", "u8", "u16", "u32", "u64", "bool"};
+      ty = r.pick(tys);
+      int bitsT = ty == "bool" ? 1 : std::stoi(ty.substr(1));
+      if (ty[0] == 'i') {
+        long long lo = bitsT == 64 ? std::numeric_limits<long long>::min() : -(1ll << (bitsT - 1));
+        long long hi = bitsT == 64 ? std::numeric_limits<long long>::max() : (1ll << (bitsT - 1)) - 1;
+        long long v;
+        switch (r.below(8)) {
+          case 0: v = hi; break;
+          case 1: v = allowNeg ? -1 : 1; break;
+          case 2: v = 0; break;
+          case 3: v = hi - (long long)r.below(3); break;
+          case 4: v = (long long)r.below(70000) % (hi / 2 + 1); break;
+          case 5: v = allowNeg ? (r.coin() ? lo : -(long long)r.below(200) - 1) : (long long)r.below(5); break;
+          case 6: v = (long long)(r.next() >> 1) % (hi + 1ull ? hi + 1ull : 1ull); if (hi == std::numeric_limits<long long>::max()) v = (long long)(r.next() >> 1); break;
+          default: v = (long long)r.below(40);
+        }
+        if (v < lo) v = lo;
+        if (v > hi) v = hi;
+        text = std::to_string(v);
+      } else {
+        unsigned long long hi = bitsT == 64 ? ~0ull : (1ull << bitsT) - 1;
+        unsigned long long v;
+        switch (r.below(6)) {
+          case 0: v = 0; break;
+          case 1: v = hi; break;
+          case 2: v = hi - r.below(3) % (hi + 1 ? hi + 1 : 1); break;
+          case 3: v = r.below(70000); break;
+          case 4: v = r.below(40); break;
+          default: v = r.next();
+        }
+        if (hi != ~0ull) v %= (hi + 1);
+        text = std::to_string(v);
+      }
+      Y = mpz_class(text);
+    };
+    static const std::vector<std::string> cmps = {"lt", "le", "gt", "ge", "eq", "ne"};
     for (int i = 0; i < len; ++i) {
       if (i) os << ";";
       bool dIsA = r.coin();
       mpz_class& D = dIsA ? A : Bv;
       const char* dn = dIsA ? "a" : "b";
-      int kind = (int)r.below(20);
+      int kind = (int)r.below(31);
+      if (kind >= 20) {
+        std::string ty, text;
+        mpz_class Y;
+        if (kind < 26) {                                    // d = d op y, d = y op d, d op= y with a typed built-in y
+          const char form = kind < 23 ? (r.coin() ? 'm' : 'r') : 'c';
+          static const std::vector<std::string> ab = {"add", "sub", "mul", "div", "mod"};
+          static const std::vector<std::string> cb = {"add", "sub", "mul", "div", "mod", "and", "or", "xor"};
+          std::string o = form == 'c' ? r.pick(cb) : r.pick(ab);
+          typed(ty, text, Y, r.coin(1, 4));
+          if ((o == "div" || o == "mod") && r.coin(1, 10) && form != 'r') { text = "0"; Y = 0; if (ty == "bool") ty = "u8"; }
+          if (Y >= 0) {
+            mpz_class S = Y % W;
+            const mpz_class num = form == 'r' ? S : D, den = form == 'r' ? D : S;
+            if ((o == "div" || o == "mod") && den != 0 && num / den > 300) o = r.coin() ? "sub" : "mul";
+            if (o == "add") D = (num + den) % W; else if (o == "sub") D = ((num - den) % W + W) % W;
+            else if (o == "mul") D = (num * den) % W; else if (o == "div") { if (den != 0) D = num / den; }
+            else if (o == "mod") { if (den != 0) D = num % den; } else if (o == "and") D = num & den;
+            else if (o == "or") D = num | den; else D = num ^ den;
+          }
+          os << form << o << " " << dn << " " << ty << " " << text;
+        } else if (kind < 28) {                             // x CMP y on the variables (one time in four x CMP x)
+          bool self = r.coin(1, 4);
+          os << r.pick(cmps) << " " << dn << " " << (self ? dn : (dIsA ? "b" : "a"));
+        } else if (kind < 30) {                             // x CMP built-in: often the variable's own value +-1
+          typed(ty, text, Y, r.coin(1, 5));
+          if (r.coin() && D < (mpz_class(1) << 63)) { ty = "i64"; mpz_class v = D + (long)r.below(3) - 1; if (v < 0) v = 0; text = v.get_str(10); }
+          else if (r.coin()) {   // the low 64 bits of a wide value (+-1): equal there, different above
+            ty = "u64"; mpz_class v = (D + (long)r.below(3) + W - 1) % (mpz_class(1) << 64); text = v.get_str(10);
+          }
+          os << r.pick(cmps) << "b " << dn << " " << ty << " " << text;
+        } else os << "touint " << dn;
+        continue;
+      }
       if (kind < 11) {                                      // d op= s, one time in four with s == d
         bool alias = r.coin(1, 4);
         bool sIsA = alias ? dIsA : !dIsA;
@@ -688,6 +926,12 @@ std::string gen(Rng& r, long, const Args& a) {
   }
   if (op.size() > 2 && op.substr(op.size() - 2) == "_u") { os << " " << hexOf(genVal(r, n)) << " " << small64(); return os.str(); }
   if (op.substr(0, 2) == "u_") { os << " " << small64() << " " << hexOf(genVal(r, n)); return os.str(); }
+  if (op == "printfl") {
+    mpz_class a = genVal(r, n);
+    if (r.coin(1, 3)) a = a >> (int)r.below(16 * n);
+    os << " " << r.below(32) << " " << hexOf(a);
+    return os.str();
+  }
   if (op == "not" || op == "incr" || op == "touint" || op == "todouble" || op == "print") {
     mpz_class a = genVal(r, n);
     if (op == "incr" && r.coin(1, 4)) a = W - 1 - (long)r.below(2);
